@@ -1,5 +1,7 @@
 from collections import defaultdict
 from collections.abc import Callable
+from functools import cache
+from inspect import signature
 
 from mypy.nodes import CallExpr, Node
 
@@ -11,6 +13,12 @@ from refurb.visitor import TraverserVisitor
 from .mapping import METHOD_NODE_MAPPINGS
 
 VisitorMethod = Callable[["RefurbVisitor", Node], None]
+
+
+@cache
+def takes_settings(check: Check) -> bool:
+    # The loader has already validated that a 3rd parameter can only be `settings: Settings`
+    return len(signature(check).parameters) == 3  # noqa: PLR2004
 
 
 def build_visitor(name: str, ty: type[Node], checks: Checks) -> VisitorMethod:
@@ -54,11 +62,7 @@ class RefurbVisitor(TraverserVisitor):
         self.accept(o.callee)
 
     def run_check(self, node: Node, check: Check) -> None:
-        # Hack: use the type annotations to check if the function takes 2 or
-        # 3 arguments. There is an extra field for return types, hence why we
-        # use 4.
-
-        if len(check.__annotations__) == 4:
+        if takes_settings(check):
             check(node, self.errors, self.settings)  # type: ignore
 
         else:
